@@ -67,7 +67,14 @@ def P0 : Prims where
     | .int x => x != 0
     | _ => false
   mkMap ps := .map ps
-  callKw _ _ := .error .invalidOperation
+  getAttr _ _ := none
+  getItem c i := match c, i with
+    | .list xs, .int n => if 0 ≤ n then xs[n.toNat]? else none
+    | _, _ => none
+  slice _ _ _ _ := .error .invalidOperation
+  callKw _ _ _ _ := .error .invalidOperation
+  filter _ _ _ _ := .error (.named "UnknownFilter")
+  test _ _ _ _ := .error (.named "UnknownTest")
 
 theorem P0_lawful : P0.Lawful where
   add := by intro a b v h; cases a <;> cases b <;> simp [P0] at h; subst h; simp
@@ -187,30 +194,52 @@ example : Hoist P0 ρ0 e_and (.var "v0") := by
   simp only [e_and, Hoist]
   exact Or.inr ⟨"v0", .int 0, rfl, by simp [asConst, evalBinop, P0], by simp [ρ0]⟩
 
+/-- `[7, 8][0]`: item access is never folded, its operands are; hoisting the index keeps the value -/
+example : Hoist P0 ρ0 (.getItem (.list (.cons (.const (.int 7)) (.cons (.const (.int 8)) .nil))) (.const (.int 0)))
+      (.getItem (.list (.cons (.const (.int 7)) (.cons (.const (.int 8)) .nil))) (.var "v0")) ∧
+    evalC P0 .strict ρ0 (.getItem (.list (.cons (.const (.int 7)) (.cons (.const (.int 8)) .nil))) (.var "v0")) = .ok (.int 7) := by
+  refine ⟨?_, ?_⟩
+  · simp only [Hoist, HoistList]
+    exact ⟨_, _, rfl, Or.inl ⟨_, rfl, _, _, rfl, Or.inl rfl, _, _, rfl, Or.inl rfl, rfl⟩,
+      Or.inr ⟨"v0", .int 0, rfl, by simp [asConst], by simp [ρ0]⟩⟩
+  · simp [evalC, folded, asConst, constValues, lookup, ρ0, getItemInstr, P0]
+
+/-- `7 if 0` (no `else`): the silent undefined -/
+example : evalC P0 .strict ρ0 (.ifExpr (.const (.int 0)) (.const (.int 7)) .none) = .ok .silent := by
+  simp [evalC, evalCOpt, isTrueM, P0]
+
 /-! ## static keyword arguments -/
 
-/-- a call whose keyword arguments are all constants (collected into one `LoadConst(Kwargs)` at
-    compile time) behaves like the dynamic path that evaluates them one by one (`BuildKwargs`) -/
-theorem static_kwargs_eq_dynamic (P : Prims) (hP : P.Lawful) (m : Mode) (ρ : Env) (pos : Exprs) (kws : Kws)
-    (hw : (Expr.call pos kws).WF) (ks : List (String × V)) (hk : constKws kws = some ks) :
-    evalC P m ρ (.call pos kws) =
+/-- a call, filter or test whose keyword arguments are all constants (collected into one
+    `LoadConst(Kwargs)` at compile time) behaves like the dynamic path that evaluates them one by
+    one (`BuildKwargs`): the static keyword map is what run-time evaluation of the keyword arguments
+    yields, and the emitted code equals the unfolded run-time semantics (which only has the dynamic
+    path) -/
+theorem static_kwargs_eq_dynamic (P : Prims) (hP : P.Lawful) (m : Mode) (ρ : Env) (kws : Kws) (hw : kws.WF)
+    (ks : List (String × V)) (hk : constKws kws = some ks) :
+    evalCKws P m ρ kws = .ok ks ∧ evalRtKws P m ρ kws = .ok ks ∧
+    (∀ name pos, pos.WF → evalC P m ρ (.call name pos kws) = evalRt P m ρ (.call name pos kws)) ∧
+    (∀ name e pos, e.WF → pos.WF → evalC P m ρ (.filter name e pos kws) = evalRt P m ρ (.filter name e pos kws)) ∧
+    (∀ name e pos, e.WF → pos.WF → evalC P m ρ (.test name e pos kws) = evalRt P m ρ (.test name e pos kws)) := by
+  have h1 : evalRtKws P m ρ kws = .ok ks := constKws_sound P m ρ kws ks hk
+  refine ⟨by rw [evalCKws_eq' m ρ hP kws hw, h1], h1, ?_, ?_, ?_⟩
+  · intro name pos hp
+    exact fold_transparent P hP m ρ _ (by simp only [Expr.WF]; exact ⟨hp, hw⟩)
+  · intro name e pos he hp
+    exact fold_transparent P hP m ρ _ (by simp only [Expr.WF]; exact ⟨he, hp, hw⟩)
+  · intro name e pos he hp
+    exact fold_transparent P hP m ρ _ (by simp only [Expr.WF]; exact ⟨he, hp, hw⟩)
+
+/-- the static path really is taken: with constant keyword arguments the emitted code does not
+    evaluate them -/
+theorem static_kwargs_path (P : Prims) (m : Mode) (ρ : Env) (name : String) (pos : Exprs) (kws : Kws)
+    (ks : List (String × V)) (hk : constKws kws = some ks) :
+    evalC P m ρ (.call name pos kws) =
       (match evalCList P m ρ pos with
        | .error e => .error e
-       | .ok ps => P.callKw ps ks) ∧
-    evalC P m ρ (.call pos kws) =
-      (match evalCList P m ρ pos with
-       | .error e => .error e
-       | .ok ps => match evalCKws P m ρ kws with
-         | .error e => .error e
-         | .ok ks' => P.callKw ps ks') := by
-  simp only [Expr.WF] at hw
-  have h2 : evalCKws P m ρ kws = .ok ks := by
-    rw [evalCKws_eq' m ρ hP kws hw.2, constKws_sound P m ρ kws ks hk]
-  constructor
-  · rw [evalC]; simp only [hk]
-    cases evalCList P m ρ pos <;> rfl
-  · rw [evalC]; simp only [hk, h2]
-    cases evalCList P m ρ pos <;> rfl
+       | .ok ps => P.callKw m name ps ks) := by
+  rw [evalC]; simp only [hk]
+  cases evalCList P m ρ pos <;> rfl
 
 example : constKws (.cons "a" (.const (.int 1)) (.cons "b" (.const (.str "x")) .nil))
     = some [("a", .int 1), ("b", .str "x")] := by
